@@ -177,7 +177,7 @@ pub fn run(ctx: &Ctx) -> i32 {
         &alphabet,
         &plans,
         &mut report,
-        ctx.tier.pick(40.0, 560.0),
+        ctx.tier.pick(240.0, 3000.0),
     );
     crate::c05net::run_resolver_level(ctx, &mut report);
     report.rule = "stateright search over all operation histories up to the stated depth (alphabet in coverage.alphabet) on a fresh real SharedCache per transition (re-execution), de-duplicated on (canonical snapshot relative to now + reference bookkeeping, depth, verdict); states = unique states, transitions = executions of a whole history on the real cache, each judged by the reference; non-trivial = histories in which a lookup returned a live record or an expired record was pruned (max of the two counters, measured)".into();
